@@ -1,6 +1,7 @@
 import ShootVerif.Proofs.MapperPairs
 import ShootVerif.Proofs.MapperNames
 import ShootVerif.Proofs.MapperFlatten
+import ShootVerif.Proofs.MapperNameSpec
 import ShootVerif.Gen.Facts
 /-!
 C05 — ToX/FromX copy exactly the matching field pairs, by the type rules.
@@ -282,6 +283,28 @@ example : acronymVariant "HTTPServer".toList "HttpServer".toList :=
     Or.inr (Or.inr ⟨'S', 'e', "rver".toList, by decide, by decide, by decide⟩), Or.inl rfl⟩
 example : smartMatchL "xID".toList "xId".toList = false := by decide   -- Pascal-casing joins `x` to the run
 
+/-- the property's name relation IS the generator's, on strings: for ASCII names without underscores `smartMatch` decides
+    "identical or the same words" — the relation `specNameMatch` the spec is written with -/
+theorem C05_match_spec (a b : String) (ha : Ascii a.toList) (hb : Ascii b.toList) (hna : NoUS a.toList) (hnb : NoUS b.toList) :
+    smartMatch a b = specNameMatch false a b := smartMatch_spec a b ha hb hna hnb
+
+/-- headline for the name rules: on two plain fields, the generator's `canNameMatch` — tag map lookup under the
+    Pascal-cased name, then `smartMatch` or, with -i, `EqualFold` — equals the spec's relation between the two LEAVES:
+    the source leaf's `map:"Name"` tag (Pascal-cased) or its own name (`effName`), compared by `specNameMatch`. All inputs
+    whose source type has no tag-renamed field with a Pascal-case namesake (`tagAmbiguous`, region Out); ASCII names; no
+    underscores in the names compared (`namesOk05`; a tag value may contain them — ToPascalCase removes them,
+    `effName_clean`). The tie of the spec's name relation to the model is a theorem, not a correspondence. -/
+theorem C05_nameMatch_spec (inp : Input) (hta : tagAmbiguous inp.src = false) (s d : Leaf) (hs : s ∈ leavesOf inp.src)
+    (hsa : Ascii (effName false s).toList) (hsn : NoUS (effName false s).toList)
+    (hda : Ascii d.decl.name.toList) (hdn : NoUS d.decl.name.toList) :
+    inp.nm (fieldOf s) (fieldOf d) = specNameMatch inp.ic (effName false s) (twinName false d.decl.name) :=
+  nm_spec inp hta s d hs hsa hsn hda hdn
+
+/-- the tag map read at a field's key gives that field's own tag (Pascal-cased) or nothing -/
+theorem C05_tag_lookup (t : Tree) (h : tagAmbiguous t = false) (d : FDecl) (hd : d ∈ allDecls t) :
+    mapGet (tagMap t) (pascalS d.name) = (match d.tag with | .name x => some (pascalS x) | _ => none) :=
+  mapGet_tagMap t h d hd
+
 /-- with -i the relation is exactly case-insensitive equality of the (tag-substituted) names -/
 theorem C05_match_i (tm : List (String × String)) (f1 f2 : Field) (hg : f1.isGet = false) (hs : f1.isSet = false) :
     canNameMatch tm true f1 f2 = equalFold ((mapGet tm (pascalS f1.matchingName)).getD f1.matchingName) f2.matchingName := by
@@ -310,6 +333,8 @@ def exWF : Input :=
     conv := [(.basic "int", .basic "int64"), (.basic "int64", .basic "int")] }
 
 example : exWF.srcNew = false ∧ exWF.destNew = false ∧ uniquePairs exWF = true ∧ region05 exWF = "WF" := by decide
+example : tagAmbiguous exWF.src = false ∧ (leavesOf exWF.src).all (fun s => asciiS (effName false s) && noUnderscore (effName false s)) = true ∧
+    (leavesOf exWF.dest).all (fun d => asciiS d.decl.name && noUnderscore d.decl.name) = true := by decide
 example : ((plan exWF).toStmts.map (fun c => (c.rd.name, c.wr.name, c.strat))) =
     [("ID", "Id", .func 0), ("Name", "Name", .assign), ("Sub", "Sub", .sub true false)] := by decide
 example : ((plan exWF).fromStmts.map (fun c => (c.rd.name, c.wr.name, c.strat))) =
